@@ -66,6 +66,30 @@ Proof.
 Qed.
 Print Assumptions C06_no_spurious_stop.
 
+(* A late ActionStarted after the Stop is one of the ALLOWED operations of C06_no_spurious_stop
+   (`LEvent KStarted a`; only a second Start is excluded): it puts the action back to STARTED with
+   count 0.  What protects it is the guard `== 0`: below or at 0 a release only decrements
+   (0 -> -1 -> ...), emits nothing and keeps the count <= 0. *)
+Theorem C06_late_started_no_second_stop :
+  (forall k a, k <> KStart -> allowed (LEvent k a)) /\
+  (forall s a c s',
+     geta s a = Some c -> (a_count c <= 0)%Z -> stop_action s a = Ok s' ->
+     out s' = out s /\
+     exists c', geta s' a = Some c' /\ (a_count c' <= 0)%Z /\
+                (active (a_status c) = true -> a_count c' = (a_count c - 1)%Z /\ a_status c' = a_status c)).
+Proof. exact (conj (fun k a H => match k as k0 return k0 <> KStart -> allowed (LEvent k0 a) with
+                                  | KStart => fun H0 => False_ind _ (H0 eq_refl) | _ => fun _ => I end H)
+                   stop_action_below_zero). Qed.
+Print Assumptions C06_late_started_no_second_stop.
+
+(* regression documentation: with the guard `flow_scope_count <= 0` (which agrees with `== 0` on
+   every positive count) scope end + late ActionStarted + end of the flow send TWO Stops *)
+Theorem C06_stop_guard_le_refuted :
+  (forall s a c, geta s a = Some c -> (0 < a_count c)%Z -> stop_action_le s a = stop_action s a) /\
+  stop_guard_le_two_stops.
+Proof. exact (conj stop_action_le_agrees stop_guard_le_witness). Qed.
+Print Assumptions C06_stop_guard_le_refuted.
+
 (* EndScope, with the release as read from the current source: stops exactly the flows and
    actions registered in the scope; a shared action that keeps running is no longer held by the
    flow (no second release); everything else is unchanged. *)
